@@ -21,6 +21,7 @@ func main() {
 	tier := flag.String("tier", "quick", "quick or thorough")
 	replay := flag.String("replay", "", "re-run the replay recorded in this file")
 	flag.Parse()
+	KeepScripts = *dump != ""
 	if *replay != "" {
 		os.Exit(rerunReplay(*replay))
 	}
